@@ -2,6 +2,7 @@
    Only statements; proofs in Proofs/TrainerProofs.v. *)
 From Coq Require Import ZArith List Bool Arith.
 From Pamiq Require Import Model.Buffers Model.DataPipe Model.Trainer Check.C13 Proofs.TrainerProofs.
+From Pamiq Require Proofs.ArrivalProofs.
 Import ListNotations.
 
 (* For every number of trainers (incl. none), every pair of thresholds per trainer (or no
@@ -13,6 +14,13 @@ Import ListNotations.
 Theorem C13_oracle_holds_on_model : forall i : input, i_incl i = false -> prop_ok (i, model_outs i) = true.
 Proof. exact model_ok. Qed.
 Print Assumptions C13_oracle_holds_on_model.
+
+(* arrivals racing with decisions: whatever the queue size and capacity, for every history in which the clock does
+   not run backwards, every arrival supports at most one run of a conditional trainer: min_new * runs <= arrivals *)
+Theorem C13_each_arrival_counts_once : forall q bc ms mn ops, ArrivalProofs.monotone [] ops ->
+  mn * ArrivalProofs.runs (trun false (tinit q bc [Some (ms, mn)]) ops) <= length (ArrivalProofs.collected ops).
+Proof. exact ArrivalProofs.each_arrival_counts_once. Qed.
+Print Assumptions C13_each_arrival_counts_once.
 
 Theorem C13_round_robin_cursor : forall c n, (0 < n)%nat ->
   Nat.modulo (S (Nat.modulo c n)) n = Nat.modulo (S c) n.
